@@ -173,8 +173,11 @@ func run(e *core.Env) {
 	// (After a send, never between signing a frame and handing it over: a frame held back
 	// there is overtaken by the router's own newer frames and refused as delayed - a loss the
 	// statement does not ask an honest mesh to survive, 10.4 no. 33.)
-	if ms.Net.BeforeSend == nil && tp.Chance(1, 3) {
+	if ms.Net.BeforeSend == nil && tp.Chance(1, 2) {
 		mask := tp.Uint64() | tp.Uint64()
+		if tp.Chance(1, 2) {
+			mask = ^uint64(0) // a tick after every send: every copy of a round has a stamp of its own
+		}
 		calls := 0
 		ms.Net.AfterSend = func(l *simnet.Link, mt frame.MessageType, src netip.Addr) {
 			if (mt != frame.RouterHopPing && mt != frame.RouterHopPingDeprecated) || src != l.Local.IP {
